@@ -46,7 +46,7 @@ Init ==
     /\ log = <<>>
     /\ nfresh = 0
     /\ phase = "honest"
-    /\ forged = [tok |-> NoTok, root |-> NoKey, mut |-> NoMut, known |-> {}]
+    /\ forged = [tok |-> NoTok, root |-> NoKey, prov |-> <<NoKey, NoKey>>, mut |-> NoMut, known |-> {}]
 
 Op(name, from, root, nk, p, ek, rkid) ==
     [op |-> name, from |-> from, root |-> root, nk |-> nk, p |-> p, ek |-> ek, rkid |-> rkid]
@@ -217,15 +217,22 @@ BaseFilter(t) == (OnlySealedBase => IsSealed(t))
 
 Roots(K) == {toks[i].root : i \in K} \cup {RootKey(a) : a \in RootAlgs} \cup {Key("A", "ed")}
 
+\* The verifier is configured with a ROOT KEY PROVIDER: a function from the token's root key id
+\* (absent = 0, or 1) to a root key, or NoKey when it knows no key for that id.  The id is an
+\* unauthenticated hint: it selects the key, and the token must then verify under THAT key.
+\* prov[1] answers "no id", prov[2] answers id 1.
+Providers(K) == {<<a, b>> : a \in Roots(K) \cup {NoKey}, b \in Roots(K) \cup {NoKey}}
+
 Adversary ==
     /\ phase = "honest"
     /\ Len(toks) >= 1
-    /\ \E K \in KnownSets : \E i \in K : \E c \in Candidates(K, i) : \E r \in Roots(K) :
+    /\ \E K \in KnownSets : \E i \in K : \E c \in Candidates(K, i) : \E pv \in Providers(K) :
          /\ Len(c[1].blocks) >= 1
          /\ (c[1] = KTok(i)) => c[2].kind = "Identity"     \* no-op mutations are the identity case
          /\ BaseFilter(KTok(i))
-         /\ (r # toks[i].root) => c[2].kind = "Identity"   \* other roots: present the unmodified token
-         /\ forged' = [tok |-> c[1], root |-> r, mut |-> c[2], known |-> K]
+         \* other providers than "always the issuing root": present the unmodified token, or only flip the hint
+         /\ (pv # <<toks[i].root, toks[i].root>>) => c[2].kind \in {"Identity", "SetRootKeyId"}
+         /\ forged' = [tok |-> c[1], root |-> pv[c[1].rkid + 1], prov |-> pv, mut |-> c[2], known |-> K]
     /\ phase' = "done"
     /\ UNCHANGED <<toks, log, nfresh>>
 
@@ -253,7 +260,7 @@ AuthenticVia(f, h, K, hKnown) ==
 Authentic(f, r, K) ==
     \E i \in 1..Len(toks) : toks[i].root = r /\ AuthenticVia(f, KTok(i), K, i \in K)
 
-Accepted == phase = "done" /\ Verify(forged.tok, forged.root)
+Accepted == phase = "done" /\ forged.root # NoKey /\ Verify(forged.tok, forged.root)
 
 \* The property as stated (C01).  TLC refutes it for the design the library
 \* implements; the refutations are the named weaknesses below.
@@ -349,7 +356,7 @@ SealedFinalModuloKnown == SealedFinal \/ Weakness = "v0-resplice"
 ExportForged ==
     (ExportOn /\ phase = "done" /\ (Accepted \/ SampleN = 1 \/ RandomElement(1..SampleN) = 1)) =>
         PrintT(<<"FORGED", ToJson([log |-> log, forged |-> forged,
-                                   accept |-> Verify(forged.tok, forged.root),
+                                   accept |-> (forged.root # NoKey /\ Verify(forged.tok, forged.root)),
                                    authentic |-> Authentic(forged.tok, forged.root, forged.known),
                                    weakness |-> Weakness])>>)
 
